@@ -94,6 +94,29 @@ func (c *ctlCodec) WriteMessage(m *jsonrpc2.Message) error {
 	return nil
 }
 
+// wideIDRequester numbers its calls with 64-bit integers or with strings.
+type wideIDRequester struct {
+	mu    sync.Mutex
+	style string
+	next  uint64
+}
+
+func (w *wideIDRequester) Request(method string, params ...interface{}) (*jsonrpc2.Message, error) {
+	w.mu.Lock()
+	n := w.next
+	w.next++
+	w.mu.Unlock()
+	id := fmt.Sprint(n)
+	if w.style == "string" {
+		id = fmt.Sprintf("%q", "call-"+id)
+	}
+	p, err := json.Marshal(params)
+	if err != nil {
+		return nil, err
+	}
+	return &jsonrpc2.Message{ID: json.RawMessage(id), Version: "2.0", Request: &jsonrpc2.Request{Method: method, Params: p}}, nil
+}
+
 // EchoSvc is registered on both ends.
 type EchoSvc struct {
 	mu      sync.Mutex
@@ -182,6 +205,12 @@ func c14Case(rt *rapid.T, rec *vt.Rec) {
 	if defaultClient {
 		// a Remote may be built without a Client (client.go does); Call then provides one
 		ra.Client = nil
+	}
+	if idStyle := rapid.SampledFrom([]string{"counter", "counter", "counter", "wide", "string"}).Draw(rt, "idStyle"); idStyle != "counter" && !defaultClient {
+		// Requester is a pluggable interface: an application may number its calls its own way - 64-bit integers
+		// (adjacent ones beyond 2^53 differ only in digits a float64 cannot hold) or strings. The ids are in the
+		// compact form the encoder writes (no insignificant whitespace, no characters it would escape).
+		ra.Client = &wideIDRequester{style: idStyle, next: rapid.SampledFrom([]uint64{1 << 53, 1<<53 - 2, 1<<63 - 40, 1<<64 - 9, 4294967295}).Draw(rt, "firstID")}
 	}
 	svcA.self, svcB.self = ra, rb
 	serveDone := make(chan struct{}, 2)
@@ -394,6 +423,12 @@ func c14Case(rt *rapid.T, rec *vt.Rec) {
 				c := callers[o.idx]
 				c.cancelled = true
 				cancels++
+				parkedBefore := false
+				for _, p := range sc.parkedList() {
+					if p.task == o.idx {
+						parkedBefore = true // still inside the write of its request: it has not been sent yet
+					}
+				}
 				c.cancel()
 				trace = append(trace, "cancel "+c.token)
 				// promptness: the cancelled call must be parked-free and finished by the next quiescent point,
@@ -421,6 +456,13 @@ func c14Case(rt *rapid.T, rec *vt.Rec) {
 				}
 				if !isParked && !sc.isDone(o.idx) {
 					failed = fmt.Sprintf("call %s did not return promptly after its context was cancelled", c.token)
+					return
+				}
+				if isParked && !parkedBefore && !sc.isDone(o.idx) {
+					// The request had been sent and the call was waiting for its reply. A parked writer is a transport
+					// whose far end is not reading right now: a call that answers the end of its context by writing to
+					// the connection returns when the peer gets round to reading, not promptly.
+					failed = fmt.Sprintf("call %s, whose request had been sent, went on to write to the connection after its context was cancelled and now waits for the peer to read (it must return with the context's error at once)", c.token)
 					return
 				}
 			}
